@@ -94,13 +94,15 @@ Definition pn_of (ro : ropts) (hs : hdr_sections) : option hval :=
   | None => None
   end.
 
-(* the STOP value read back equals the last index value read back (no refresh on the next write) *)
-Definition stop_agreesb (ro : ropts) (pit : hitem) (T : list (list (list N))) : bool :=
+(* the STOP value read back equals the value that the index format f prints for the last index
+   value read back (no refresh on the next write: writer.write compares STOP with
+   float(f % index_initial[-1])) *)
+Definition stop_agreesb (ro : ropts) (f : list N) (pit : hitem) (T : list (list (list N))) : bool :=
   match rev T with
   | toks :: _ =>
       match mk_num fhex (nth 0%nat toks []), i_value (expected_item fstr KWell (o_mcase ro) pit) with
-      | CNum t, VInt z => numeq t (z_to_str z)
-      | CNum t, VFloat x => numeq t x
+      | CNum t, VInt z => numeq (fmtv f t) (z_to_str z)
+      | CNum t, VFloat x => numeq (fmtv f t) x
       | _, _ => false
       end
   | [] => false
@@ -141,7 +143,7 @@ Definition cycle_hypsb (ro : ropts) (o : wopts) (hs : hdr_sections) (nt : list N
   match uniq c k_strt AW, uniq c k_stop AW, uniq c k_step AW, AC with
   | Some sit, Some pit, Some eit, c0 :: _ =>
       str_eqb (i_unit sit) (i_unit c0) && str_eqb (i_unit pit) (i_unit c0) && str_eqb (i_unit eit) (i_unit c0) &&
-      stop_agreesb ro pit T
+      stop_agreesb ro (col_fmt o 0%nat) pit T
   | _, _, _, _ => false
   end &&
   match uniq c k_null AW with Some nit => str_eqb (vstr fstr (i_value nit)) nt | None => false end &&
@@ -167,14 +169,14 @@ Qed.
 Lemma forallb_map_ {A B} (f : A -> B) (p : B -> bool) : forall l, forallb p (map f l) = forallb (fun x => p (f x)) l.
 Proof. induction l as [|x l IH]; [reflexivity|]. cbn [map forallb]. rewrite IH. reflexivity. Qed.
 
-Lemma second_need ro hs l pit c pn T :
+Lemma second_need ro f hs l pit c pn T :
   l_well l = mksect (reb fstr ro KWell (s_items (l_well (hs_las hs)))) (trc (o_mcase ro)) ->
   l_data l = data_result fhex numeq ro pn c T -> (0 < c)%nat ->
   filter (in_class (o_mcase ro) k_stop) (s_items (l_well (hs_las hs))) = [pit] ->
-  stop_agreesb ro pit T = true -> index_reflb T = true ->
+  stop_agreesb ro f pit T = true -> index_reflb T = true ->
   (* at least one curve: without one `las.index` raises IndexError (Model/Writer.v, need) *)
   s_items (l_curves l) <> [] ->
-  need_of numeq (mkmlas l (Some (nth 0%nat (l_data l) []))) = Some false.
+  need_of fmtv numeq f (mkmlas l (Some (nth 0%nat (l_data l) []))) = Some false.
 Proof.
   intros HlW Hd Hc HcP Hstop Hrefl Hcur.
   destruct (reb_find fstr ro KWell k_stop _ pit key_plain_stop HcP) as (p & Hp & Hn & _).
@@ -228,7 +230,7 @@ Proof.
   destruct (uniq (o_mcase ro) k_step (s_items (l_well (hs_las hs)))) as [eit|] eqn:EE; [|discriminate]. apply uniq_some in EE.
   destruct (s_items (l_curves (hs_las hs))) as [|c0 crest] eqn:EC; [discriminate|]. rewrite <- EC in *.
   repeat (apply andb_true_iff in HSSS as [HSSS ?]).
-  match goal with K : stop_agreesb _ _ _ = true |- _ => rename K into Hstop end.
+  match goal with K : stop_agreesb _ _ _ _ = true |- _ => rename K into Hstop end.
   repeat match goal with K : str_eqb (i_unit _) (i_unit c0) = true |- _ => apply ws_str_eqb_eq in K end.
   assert (Hpn : pn = pn_of ro hs).
   { unfold pn_of. unfold null_read in Hnull. unfold uniq in *. fold k_null in Hnull.
@@ -257,7 +259,7 @@ Proof.
   rewrite Hidx.
   assert (Hcur : s_items (l_curves l) <> []).
   { intro E0. rewrite E0 in Hcl. unfold cn in Hcl. rewrite EC in Hcl. discriminate Hcl. }
-  pose proof (second_need ro hs l pit cn pn T HlW Hdata Hc EP Hstop Hrefl Hcur) as Hneed.
+  pose proof (second_need ro (col_fmt o 0%nat) hs l pit cn pn T HlW Hdata Hc EP Hstop Hrefl Hcur) as Hneed.
   (* the header of the second write *)
   assert (HwI : forall b, wo_wrap o = Some b -> expected_item fstr KVersion (o_mcase ro) wit = wrap_item b).
   { intros b Hb. rewrite Hb in HW. apply hitem_eqb_eq. exact HW. }
